@@ -80,13 +80,16 @@ CHECKS = {
          "Windows explored at both ends only; TSC judged only for bursts with exactly one recognisable training sequence.",
          "DESIGN.md 2/C10", "world+enum"),
  "C09": ("model_checking",
-         "exhaustive execution of the real clock worker under a virtual clock for all handler-duration x lateness scripts up to length L, with stop/start at every position; reference-clock oracle",
+         "exhaustive execution of the real clock worker under a virtual clock for all handler-duration x lateness scripts up to length L, with stop/start at every position, plus stop() overlapping a busy handler with the worker in a real thread under a one-baton scheduler; reference-clock oracle",
          "Every script of length L (5 quick / 6 thorough) over 6 handler durations (below, at and above one frame) x 2 wake-up latenesses is run on the "
          "real CLCKGen.start/_worker/send_clck_ind/stop; every handler invocation time, frame number and indication datagram is compared with a "
          "reference clock in integer nanoseconds; repeated over start frames {0,1,2715646,2715647} x periods {1,2,51,102} x 0..2 links and with "
          "stop()/start() arriving before, during and at the end of a wait after every script prefix; plus two generator objects in one process "
-         "(one lives its whole life while the other waits).",
-         "Virtual time; worker body run synchronously (Event.wait is its only blocking point); frame period taken from the implementation within 1 us.",
+         "(one lives its whole life while the other waits); periods 7/13/100/1000 (not dividing the hyperframe) run from the last multiple below the "
+         "wrap through it; stop() arriving inside a handler call of 2.3 ms .. 12 s (70 s thorough) followed by start(), worker in a real thread, "
+         "join timeouts on the virtual clock (72 / 240 scenarios).",
+         "Virtual time; worker body run synchronously for the script product (Event.wait is its only blocking point), in a baton-controlled real thread "
+         "for the stop-during-handler leg; frame period taken from the implementation within 1 us.",
          "DESIGN.md 2/C09", "world"),
  "C14": ("fault_enumeration",
          "exhaustive fault enumeration: every (session position x catalogue mutant) through the real main loop, differential against the reference model for the rest of the session",
@@ -168,7 +171,8 @@ CHECKS = {
          "complete enumeration of a bounded definition grammar (envelopes of <=3/4 fields from a 29-atom menu, all bit-field compositions, nesting, sequences) x boundary-value assignments, generic reference packer",
          "4.0e4 (quick) / 5.1e5 (thorough) generated codec definitions, each with the complete product of per-field boundary values (capped, cap recorded), "
          "one-at-a-time illegal values, every truncation, a trailing octet, fixed-value flips and lying length fields; encode is compared octet by octet "
-         "with an independent packer, decode(encode(v)) = v, encode(decode(b)) = b, consumed length = declared length, and only DecodeError/EncodeError may be raised.",
+         "with an independent packer, decode(encode(v)) = v, encode(decode(b)) = b, consumed length = declared length, and only DecodeError/EncodeError may be raised; "
+         "presence callbacks returning 10 bool and non-bool results x 4 field classes (encoder and decoder must read them the same way).",
          "Grammar bounded as stated in coverage.rule; hooks outside the statement (Envelope.check, definition-time errors) left out.",
          "DESIGN.md 2/C16", "enum"),
  "C17": ("exploration",
